@@ -13,12 +13,18 @@
  *   ev <prog> <tok>...       line-number bookkeeping events of one finished compilation (hook in icode.c/compiler.c)
  *                              b | s:<line>:<addr>:<block> | r:<line>:<addr>:<block> (replayed by __INIT placement) | f:<fileid>:<lines> | a:<fileid>:<name> | i:<base>:<size> | e:<psize>
  *   fn <prog> <name>,...     function table of a program (index order)
- *   tab <prog> psize=<n> fi=<count>:<file>,... li=<len>:<line16>,... files=<id>:<name>,...
+ *   tab <prog> psize=<n> hdr=<file_info[0]>:<file_info[1]> fi=<count>:<file>,... li=<len>:<line16>,... files=<id>:<name>,...
  *                            the real file_info / line_info tables (raw unsigned 16 bit values) and the program size
  *   tra <prog> <cnt>*<fileid>:<firstline>|<cnt>*- ...   the real translate_absolute_line() for EVERY absolute line 0..total+2
  *   dec <prog> <cnt>*<text> ...   run-length list of the real get_line_number() answer for EVERY offset 0..psize
  *   cs caught=<c> err=<text> n=<k> <kind>:<tableindex>:<prog>:<ob>:<pcoff> ... cur=<prog>:<ob>:<pcoff>
  *                            raw control stack and registers at the moment of the error (hook in error_context.c)
+ *                            every entry may carry :<num_arg>:<num_local> of the frame it opens (-1 = not a function / literal)
+ *   dt ret=<0|obj> <line>|<line>...   the real dump_trace (0) on that control stack: log text, colour codes removed, blanks
+ *                            as `~`; ret = its return value (object whose heart_beat() is on the stack)
+ *   dta <F|A|L>...|...       the real dump_trace (DUMP_WITH_ARGS | DUMP_WITH_LOCALVARS): which lines follow each frame line
+ *                            (F frame, A "arguments:", L "local variables:")
+ *   ce <file>:<line>:<text>  a compile-time error / warning as the compiler reported it (master log_error)
  * and the verification master (mudlib/c18/master.c) logs   eh caught=.. error=.. file=.. line=.. program=.. object=.. trace=..
  */
 #include "vh.h"
@@ -30,6 +36,9 @@
 #include "lpc/lex.h"
 #include "lpc/program/binaries.h"
 #include "lib/efuns/call_out.h"
+#include "lpc/functional.h"
+#include "rc/rc.h"
+#include "src/simulate.h"
 
 /* libc interposition: the driver's clock is virtual (call_heart_beat() reads time() into current_time; with the wall
  * clock the call_out wheel would be swept second by second from VH_T0 to today) */
@@ -158,8 +167,22 @@ static void dump_prog (const program_t * prog, int force)
       int total = fi[0];
       unsigned char *li = (unsigned char *) (fi + lnoff);
       unsigned char *li_end = ((unsigned char *) fi) + total;
-      int seen[64], nseen = 0;
-      tb_add (&t, "tab %s psize=%d fi=", prog->name, (int) prog->program_size);
+      {
+        /* fi[0] is the size of both tables in bytes stored in an unsigned short: with more than 64 KB of tables it
+         * has wrapped.  The runs cover the whole program (switch_to_line (-1) flushes the last bytes), so their
+         * real end is where the run lengths add up to program_size */
+        long acc = 0;
+        unsigned char *q = li;
+        while (acc < (long) prog->program_size && q < li + 3L * 70000)
+          {
+            acc += q[0];
+            q += 3;
+          }
+        if (q > li_end)
+          li_end = q;
+      }
+      int seen[512], nseen = 0;
+      tb_add (&t, "tab %s psize=%d hdr=%d:%d fi=", prog->name, (int) prog->program_size, (int) fi[0], (int) fi[1]);
       for (int i = 2; i + 1 < lnoff; i += 2)
         tb_add (&t, "%s%d:%d", i > 2 ? "," : "", (int) fi[i], (int) fi[i + 1]);
       if (lnoff <= 2)
@@ -180,7 +203,7 @@ static void dump_prog (const program_t * prog, int force)
           for (int k = 0; k < nseen; k++)
             if (seen[k] == id)
               dup = 1;
-          if (dup || nseen >= 64)
+          if (dup || nseen >= 512)
             continue;
           seen[nseen++] = id;
           tb_add (&t, "%s%d:%s", nseen > 1 ? "," : "", id,
@@ -237,13 +260,13 @@ static void dump_prog (const program_t * prog, int force)
 
   /* the real decoder on every offset */
   {
-    char prev[300] = "";
+    static char prev[PATH_MAX + 64], cur[PATH_MAX + 64];
     int cnt = 0;
+    prev[0] = 0;
     tb_add (&t, "dec %s", prog->name);
     for (int off = 0; off <= (int) prog->program_size; off++)
       {
         char *r = get_line_number (prog->program + off, prog);
-        char cur[300];
         snprintf (cur, sizeof cur, "%s", r);
         for (char *q = cur; *q; q++)
           if (*q == ' ')
@@ -293,6 +316,62 @@ static long pcoff (const program_t * prog, const char *p)
   return d;
 }
 
+extern FILE *current_log_file;	/* lib/logger/logger.c: where log_message (NULL, ...) writes */
+
+static void tb_adds (tbuf_t * t, const char *s, size_t k)
+{
+  if (t->n + k + 1 > t->cap)
+    {
+      t->cap = (t->cap + k + 1) * 2;
+      t->s = (char *) realloc (t->s, t->cap);
+    }
+  memcpy (t->s + t->n, s, k);
+  t->n += k;
+  t->s[t->n] = 0;
+}
+
+/* run the driver's dump_trace (how) with the log redirected into memory; returns the text (malloc) */
+static char *capture_dump_trace (int how, char **ret)
+{
+  char *mem = 0;
+  size_t msz = 0;
+  FILE *save = current_log_file;
+  FILE *mf = open_memstream (&mem, &msz);
+  if (!mf)
+    return 0;
+  current_log_file = mf;
+  *ret = dump_trace (how);
+  current_log_file = save;
+  fclose (mf);
+  return mem;
+}
+
+/* num_arg / num_local of the frame a control stack element opens, read the way dump_trace / get_svalue_trace do */
+static void frame_counts (const control_stack_t * p, const program_t * prog, int *na, int *nl)
+{
+  *na = -1;
+  *nl = -1;
+  switch (p->framekind & FRAME_MASK)
+    {
+    case FRAME_FUNCTION:
+      if (prog && prog != &fake_prog && p->fr.table_index >= 0 && p->fr.table_index < (int) prog->num_functions_defined)
+        {
+          compiler_function_t *cfp = &prog->function_table[p->fr.table_index];
+          runtime_function_u *fe = FIND_FUNC_ENTRY (prog, cfp->runtime_index);
+          *na = fe->def.num_arg;
+          *nl = fe->def.num_local;
+        }
+      break;
+    case FRAME_FUNP:
+      if (p->fr.funp)
+        {
+          *na = p->fr.funp->f.functional.num_arg;
+          *nl = p->fr.funp->f.functional.num_local;
+        }
+      break;
+    }
+}
+
 static void error_hook (const char *err, int caught)
 {
   tbuf_t t = { 0, 0, 0 };
@@ -302,17 +381,61 @@ static void error_hook (const char *err, int caught)
   tb_add (&t, "cs caught=%d err=%s n=%d", caught, e, (int) (csp - control_stack) + 1);
   for (p = control_stack; p <= csp; p++)
     {
-      int kind = p->framekind & FRAME_MASK;
-      tb_add (&t, " %d:%d:%s:%s:%ld", kind, kind == FRAME_FUNCTION ? p->fr.table_index : 0,
-              p->prog ? p->prog->name : "-", p->ob ? p->ob->name : "-", pcoff (p->prog, p->pc));
+      int kind = p->framekind & FRAME_MASK, na, nl;
+      frame_counts (p, p < csp ? p[1].prog : current_prog, &na, &nl);
+      tb_add (&t, " %d:%d:%s:%s:%ld:%d:%d", kind, kind == FRAME_FUNCTION ? p->fr.table_index : 0,
+              p->prog ? p->prog->name : "-", p->ob ? p->ob->name : "-", pcoff (p->prog, p->pc), na, nl);
     }
   tb_add (&t, " cur=%s:%s:%ld", current_prog ? current_prog->name : "-",
           current_object ? current_object->name : "-", pcoff (current_prog, pc));
   tb_flush (&t);
-  free (t.s);
   for (p = control_stack; p <= csp; p++)
     dump_prog (p->prog, 0);
   dump_prog (current_prog, 0);
+  /* the driver's textual trace of the same control stack: dump_trace (0), colour codes removed */
+  {
+    char *ret = 0;
+    char *txt = capture_dump_trace (0, &ret);
+    tb_add (&t, "dt ret=%s ", ret ? ret : "0");
+    if (!txt || !*txt)
+      tb_add (&t, "-");
+    for (char *q = txt; q && *q; q++)
+      {
+        if (*q == 27 && q[1] == '[')
+          {
+            while (*q && *q != 'm')
+              q++;
+            if (!*q)
+              break;
+            continue;
+          }
+        if (*q == '\t')
+          continue;
+        char c = *q == ' ' ? '~' : (*q == '\n' ? (q[1] ? '|' : 0) : *q);
+        if (c)
+          tb_adds (&t, &c, 1);
+      }
+    free (txt);
+    tb_flush (&t);
+    /* with arguments and local variables: only WHICH lines are printed is canonical (values are not modelled) */
+    txt = capture_dump_trace (DUMP_WITH_ARGS | DUMP_WITH_LOCALVARS, &ret);
+    tb_add (&t, "dta ");
+    if (!txt || !*txt)
+      tb_add (&t, "-");
+    for (char *q = txt, *ln = txt; q && *q; q++)
+      if (*q == '\n')
+        {
+          int first = (ln == txt);
+          char c = !strncmp (ln, "\t\targuments:", 12) ? 'A' : !strncmp (ln, "\t\tlocal variables:", 18) ? 'L' : 'F';
+          if (c == 'F' && !first)
+            tb_adds (&t, "|", 1);
+          tb_adds (&t, &c, 1);
+          ln = q + 1;
+        }
+    free (txt);
+    tb_flush (&t);
+  }
+  free (t.s);
 }
 
 /* ---- commands ---------------------------------------------------------------- */
@@ -409,7 +532,9 @@ static int c18_cmd (char *line)
     }
   if (!strncmp (line, "file ", 5))
     return cmd_file (line);
-  if (!strncmp (line, "expect ", 7) || !strcmp (line, "expect"))
+  if (!strncmp (line, "mode ", 5))
+    return 1;			/* which driver configuration the case runs under: read by the plugin (props/c18.py run_impl) */
+  if (!strncmp (line, "expect ", 7) || !strcmp (line, "expect") || !strncmp (line, "expectce ", 9))
     return 1;			/* generator's record: read by the specification oracle only */
   if (!strncmp (line, "dump ", 5))
     {
